@@ -59,7 +59,7 @@ func c08Result(i int) string {
 	return Canon(g, cfg)
 }
 
-func refPath(id string) string { return filepath.Join(eng.Root, ".scratch", id+"-ref.json") }
+func refPath(id string) string { return filepath.Join(eng.Scratch(), id+"-ref.json") }
 
 // freshRefs runs `self <cmd> i` in a fresh process per index and stores the outputs' hashes.
 func freshRefs(id, cmd string, n int) {
